@@ -69,8 +69,16 @@ func (c *Condition) UnmarshalJSON(b []byte) error {
 	if len(v) != 3 {
 		return fmt.Errorf("expected a 3 element json array. there are %d elements", len(v))
 	}
-	c.Column = v[0].(string)
-	function := ConditionFunction(v[1].(string))
+	column, ok := v[0].(string)
+	if !ok {
+		return fmt.Errorf("expected the column of a condition to be a string, got %v", v[0])
+	}
+	c.Column = column
+	functionName, ok := v[1].(string)
+	if !ok {
+		return fmt.Errorf("expected the function of a condition to be a string, got %v", v[1])
+	}
+	function := ConditionFunction(functionName)
 	switch function {
 	case ConditionEqual,
 		ConditionNotEqual,
